@@ -92,7 +92,31 @@ pub fn generate(tier: &str, rng: &mut Prng) -> Vec<Case> {
             }
         }
     }
-    ops
+    // transforms of different lengths one after the other on the same worker, in descending, ascending and mixed order
+    // (state kept between calls - a cached table or scaling factor sized by an earlier call - shows only then); the
+    // sequence is repeated so that at least one copy lies inside one worker's slice
+    let seq: [usize; 14] = [1024, 512, 1024, 2, 256, 4, 1024, 8, 16, 512, 32, 2, 64, 128];
+    let block: Vec<Case> = seq
+        .iter()
+        .flat_map(|&n| {
+            let a: Vec<i64> = (0..n).map(|_| rng.range(-200, 200)).collect();
+            let b: Vec<i64> = (0..n).map(|_| rng.range(-200, 200)).collect();
+            vec![
+                Case::new(format!("cplx_roundtrip {}", cfmt(&real_vec(&a)))),
+                Case::new(format!("cplx_mul {} {}", cfmt(&real_vec(&a)), cfmt(&real_vec(&b)))),
+                Case::new(format!("cplx_split_of_fft {}", cfmt(&real_vec(&a)))),
+            ]
+        })
+        .collect();
+    let mut with_seq = vec![];
+    let every = (ops.len() / 20).max(1);
+    for (i, c) in ops.into_iter().enumerate() {
+        if i % every == 0 {
+            with_seq.extend(block.iter().map(|c| Case { op: c.op.clone(), fixed_out: None }));
+        }
+        with_seq.push(c);
+    }
+    with_seq
 }
 
 fn close(a: &[(f64, f64)], b: &[(f64, f64)], tol: f64) -> Option<f64> {
